@@ -17,6 +17,10 @@ MODIFIER_STACKS = [
 POD_EDGE = ["12 at night", "12 uhr nachts", "tonight at 12", "12:30 in the afternoon", "12 abends", "0 uhr nachts", "12:45 late evening", "nachmittags 12:15",
             "12 in the evening", "12:00 pm at night", "24:00", "12 o'clock tonight", "tomorrow 12 at night", "am 5. um 12 uhr nachts", "12-1 at night",
             "11:59 pm tonight", "12 noon", "mittags 12", "12 uhr mittags", "heute nacht 12 uhr"]
+# dated clock ranges that cross midnight on the last day of a month / year (the end has to roll every field over)
+MONTH_END_RANGES = ["30.11.2020 23:30 - 3:35", "31.12.2020 22:00 - 1:00", "31.03.2021 von 23 uhr bis 2 uhr", "29.02.2024 23:15-0:45", "28.02.2023 22:30 - 6:00",
+                    "31.01.2022 11pm - 2am", "30.04.2021 between 23:00 and 4:00", "31.12.2019 23:59 - 0:01", "31.10.2020 evening - morning", "30.06.2022 20:00 - 8:00",
+                    "am 31.12. 23:30 - 3:35", "31.08.2021 from 22:00 until 1:30", "tomorrow 23:30 - 3:35", "friday 23:00 - 2:00"]
 TRIVIAL = ["", " ", "   ", "#foo", "#foo #bar", "  #x  ", "#", "# #", "#1", "#foo-bar_baz", "gargelbabel", "hello world", "#tag only words here",
            "\t", "\n", ",;", "()", "-", "--", ".", "...", "#-", "a", "0", "00", "000", "0000", "00000"]
 INERT = ["zzz", "qqq", "lorem", "ipsum", "beers", "burgers", "xylophone", "buy", "gift", "dentist", "pizza"]
